@@ -195,3 +195,77 @@ def renamed_fields(facts, maps):
                     if e.get('initfield') in m: e['initfield'] = m[e['initfield']]
         return d
     return Facts(facts.dir, [t.name for t in facts.tus], transform=tr)
+
+
+# ---- Subject -----------------------------------------------------------------------------------------------------------
+SEQ = ('std::forward_list<', 'std::list<', 'std::vector<', 'std::deque<')
+SETS = ('std::set<', 'std::unordered_set<', 'std::multiset<')
+ID_TYPES = INTEGRAL + ('tulz::SubscriptionId', 'SubscriptionId', 'unsigned short', 'short', 'std::size_t', 'uint32_t', 'uint64_t', 'std::uint32_t', 'std::uint64_t')
+
+
+def infer_subject(facts, cls_full):
+    """({actual field: canonical}, (entry class, {actual: canonical}), reason): the observer table (sequence of records holding a
+    shared_ptr to the observer and an id), the set of active ids, the id counter"""
+    c = facts.cls(cls_full)
+    if c is None: return None, None, 'class not found'
+    fields = c['fields']
+    seqs = [f for f in fields if f['ctype'].startswith(SEQ)]
+    sets = [f for f in fields if f['ctype'].startswith(SETS)]
+    ints = [f for f in fields if f['ctype'].replace('const ', '') in ID_TYPES]
+    sub = [f for f in facts.fns if f.d.get('classfull') == cls_full and f.qname.split('::')[-1] == 'subscribe' and not f.d.get('lambda')]
+    if sub and (len(seqs) > 1 or len(ints) > 1 or len(sets) > 1):
+        # several candidates (e.g. an added buffer): the table is the sequence subscribe() inserts into, the counter the one it steps
+        touched = set()
+        for n in sub[0].nodes():
+            if n.k == 'member' and n.field and n.n('base') is not None and n.n('base').k == 'this': touched.add(n.name)
+        seqs = [f for f in seqs if f['name'] in touched] or seqs
+        ints = [f for f in ints if f['name'] in touched] or ints
+        sets = [f for f in sets if f['name'] in touched] or sets
+    if len(seqs) == 1 and len(sets) == 1 and len(ints) == 0:
+        ints = [dict(name='m_subscriptionCounter')]          # no counter at all: the rules report what the id is derived from
+    if len(seqs) != 1 or len(sets) != 1 or len(ints) != 1:
+        return None, None, f'fields {[f["name"] + ": " + f["ctype"][:40] for f in fields]}: not (sequence of observer entries, set of active ids, id counter) — re-designed subject'
+    m = re.match(r'std::\w+<(.*?)(?:, std::allocator<.*)?>$', seqs[0]['ctype'])
+    entry = m.group(1).strip() if m else None
+    ec = facts.cls(entry) if entry else None
+    emap = {}
+    if ec is not None:
+        sp = [f for f in ec['fields'] if f['ctype'].startswith(('std::shared_ptr<', 'std::unique_ptr<'))]
+        idf = [f for f in ec['fields'] if f['ctype'].replace('const ', '') in ID_TYPES]
+        if len(sp) == 1 and len(idf) == 1 and len(ec['fields']) == 2: emap = {sp[0]['name']: 'observer', idf[0]['name']: 'subscriptionId'}
+        else: return None, None, f'entries of {seqs[0]["name"]} are not (smart pointer to the observer, id)'
+    elif entry and entry.startswith('std::pair<'): emap = {}
+    else: return None, None, f'entry type of {seqs[0]["name"]} not found'
+    return {seqs[0]['name']: 'm_observers', sets[0]['name']: 'm_activeSubscriptions', ints[0]['name']: 'm_subscriptionCounter'}, (entry, emap), ''
+
+
+def renamed_subject_facts(facts, per_class):
+    """per_class: {Subject class: (field map, (entry class, entry map))}"""
+    def tr(d):
+        for nid, n in d['exprs'].items():
+            if n.get('k') == 'member' and n.get('field'):
+                cl = n.get('classfull') or n.get('class') or ''
+                for S, (fm, (ecls, em)) in per_class.items():
+                    if cl == S and n['name'] in fm: n['name'] = fm[n['name']]
+                    elif cl == ecls and n['name'] in em: n['name'] = em[n['name']]
+            if n.get('k') == 'initlist' and n.get('fields'):
+                for S, (fm, (ecls, em)) in per_class.items():
+                    if em and set(n['fields']) == set(em): n['fields'] = [em[x] for x in n['fields']]
+        for c in d['classes']:
+            for S, (fm, (ecls, em)) in per_class.items():
+                if c['fullname'] == S:
+                    for f in c['fields']:
+                        if f['name'] in fm: f['name'] = fm[f['name']]
+                if c['fullname'] == ecls:
+                    for f in c['fields']:
+                        if f['name'] in em: f['name'] = em[f['name']]
+        for f in d['functions']:
+            for S, (fm, (ecls, em)) in per_class.items():
+                if (f.get('classfull') or f.get('class')) == S:
+                    for i in f.get('inits') or []:
+                        if i.get('field') in fm: i['field'] = fm[i['field']]
+                    for b in (f.get('cfg') or {}).get('blocks', []):
+                        for e in b['elems']:
+                            if e.get('initfield') in fm: e['initfield'] = fm[e['initfield']]
+        return d
+    return Facts(facts.dir, [t.name for t in facts.tus], transform=tr)
